@@ -29,6 +29,9 @@ TReset == /\ Is("reset") /\ l' = l + 1 /\ ok' = TRUE
           /\ running' = FALSE /\ holder' = 0 /\ th' = <<>> /\ open' = TRUE /\ passes' = 0 /\ stopSeen' = -1 /\ begunAfterStop' = 0
 TStart == Is("start") /\ l' = l + 1 /\ Take(Start, "start")
 TStop == Is("stop") /\ l' = l + 1 /\ Take(Stop, "stop")
+\* close_wallet / open_wallet seen from the driver: the model's OpenClose, towards the logged state
+TOpenClose == /\ l <= Len(Rec) /\ Rec[l].ev \in {"close", "open"} /\ l' = l + 1
+              /\ Take(OpenClose /\ open' = (E.ev = "open"), E.ev)
 TAcquire == Is("acquire") /\ l' = l + 1 /\ Take(Acquire(E.t), "acquire")
 TBegin == Is("begin") /\ l' = l + 1 /\ Take(Begin(E.t), "begin")
 TWake == Is("wake") /\ l' = l + 1 /\ Take(Wake(E.t), "wake")
@@ -47,7 +50,7 @@ TOther == /\ l <= Len(Rec) /\ Rec[l].ev \in {"teardown", "pass", "harness_panic"
           /\ (IF Rec[l].ev = "teardown" /\ Rec[l].threads_left # 0 THEN NonConf("threads left after stop") ELSE TRUE)
 
 TInit == Init /\ l = 1 /\ ok = TRUE
-TNext == TReset \/ TStart \/ TStop \/ TAcquire \/ TBegin \/ TWake \/ TFail \/ TEnd \/ TObs \/ THang \/ TOther
+TNext == TOpenClose \/ TReset \/ TStart \/ TStop \/ TAcquire \/ TBegin \/ TWake \/ TFail \/ TEnd \/ TObs \/ THang \/ TOther
 TSpec == TInit /\ [][TNext]_tvars
 \* the invariants of the model hold along every observed behaviour too
 ObsInv == ok => (OneRunner /\ HolderRuns /\ StopWithinOnePass /\ FlagCoversRun)
